@@ -72,20 +72,41 @@ def main():
     ap.add_argument('--checks', default='')
     ap.add_argument('--nproc', type=int, default=16)
     ap.add_argument('--keep-logs', action='store_true')
+    ap.add_argument('--record', action='store_true', help='merge the results into seeded/MATRIX.json')
     ap.add_argument('names', nargs='*')
     a = ap.parse_args()
-    names = a.names or sorted(os.listdir(os.path.join(VERIF, 'seeded')))
+    names = a.names or sorted(d for d in os.listdir(os.path.join(VERIF, 'seeded'))
+                              if os.path.isdir(os.path.join(VERIF, 'seeded', d)))
     os.makedirs(ROOT, exist_ok=True)
     missed = 0
+    record = {}
+    head = subprocess.run(['git', '-C', VERIF, 'log', '-1', '--format=%h'], capture_output=True, text=True).stdout.strip()
+    rhead = subprocess.run(['git', '-C', '/repo', 'log', '-1', '--format=%h'], capture_output=True, text=True).stdout.strip()
     with concurrent.futures.ThreadPoolExecutor(a.j) as ex:
         futs = [ex.submit(one, n, a.checks.split(), a.tier, a.seed, a.nproc, a.keep_logs) for n in names]
         for f in futs:
             name, line = f.result()
             if 'rc=1' not in line:
                 missed += 1
-            print('%-8s %s' % (name, line), flush=True)
+            record[name] = {'result': line.split('\n')[0], 'first_violation': (line.split('\n      ') + [''])[1][:300],
+                            'detected': 'rc=1' in line, 'tier': a.tier, 'seed': str(a.seed), 'verif_commit': head,
+                            'repo_commit': rhead}
+            try:
+                print('%-8s %s' % (name, line), flush=True)
+            except BrokenPipeError:
+                pass
     subprocess.run(['git', '-C', '/repo', 'worktree', 'prune'])
-    print('%d change(s), %d not detected' % (len(names), missed))
+    if a.record:
+        path = os.path.join(VERIF, 'seeded', 'MATRIX.json')
+        old = json.load(open(path)) if os.path.exists(path) else {}
+        old.update(record)
+        with open(path, 'w') as f:
+            json.dump(old, f, indent=1, sort_keys=True)
+            f.write('\n')
+    try:
+        print('%d change(s), %d not detected' % (len(names), missed))
+    except BrokenPipeError:
+        pass
     return 1 if missed else 0
 
 
